@@ -462,6 +462,7 @@ pub(super) async fn run(spec: Spec, env: Arc<Env>) -> Out {
         clients: vec![],
         expected_hellos: vec!["/hello2"],
         n_ok: 0,
+        late_ok: 0,
         bad_attempts: 0,
         failed_waits: vec![],
         harness_err: None,
